@@ -140,6 +140,10 @@ def gen_random(seed: int, n: int, long_p: float = 0.1) -> List[Dict[str, Any]]:
         out.append({"cfg": {"start": start, "horizon": horizon, "srcs": srcs, "kickfail": kickfail, "kicklat": rng.choice([0, 0, 0, 300])},
                     "steps": steps, "family": "sched_random"})
         if reuse is not None:
+            for src in srcs:                  # an id can only be used again if it was given explicitly the first time
+                for x in src["sched"]:
+                    if x["sid"] == reuse:
+                        x["noid"] = False
             out[-1]["noconf"] = True          # Scheduler.tla adds schedules under fresh ids only
             out[-1]["cfg"]["kickfail"] = [kf for kf in kickfail if kf[0] != reuse]
         if rng.random() < 0.1 and reuse is None:
